@@ -22,6 +22,7 @@ import (
 	"errors"
 	"fmt"
 	"math"
+	"runtime/debug"
 	"sort"
 	"strings"
 
@@ -597,6 +598,18 @@ func ExecuteQuery(root *structs.ASTNode, aggs *structs.QueryAggregators, qid uin
 
 func ExecuteQueryInternalNewPipeline(qid uint64, isAsync bool, root *structs.ASTNode, aggs *structs.QueryAggregators,
 	qc *structs.QueryContext, rQuery *query.RunningQueryState, sizeLimit uint64) {
+	// this runs on a goroutine of its own: a panic in the pipeline must end the query, not the process
+	defer func() {
+		if r := recover(); r != nil {
+			log.Errorf("qid=%v, ExecuteQueryInternalNewPipeline: panic: %v\n%s", qid, r, debug.Stack())
+			rQuery.StateChan <- &query.QueryStateChanData{
+				StateName: query.ERROR,
+				Error:     fmt.Errorf("internal error while running the query: %v", r),
+				Qid:       qid,
+			}
+		}
+	}()
+
 	queryProcessor, err := SetupPipeResQuery(root, aggs, qid, qc, qc.Scroll, sizeLimit)
 	if err != nil {
 		log.Errorf("qid=%v, ExecuteQueryInternalNewPipeline: failed to SetupPipeResQuery, err: %v", qid, err)
